@@ -116,6 +116,17 @@ func (q *mockQuerier) SelectLogs(_ context.Context, start, end otelstorage.Times
 	q.calls = append(q.calls, call)
 	q.opened++
 	var out []logstorage.Record
+	// as in a real storage (dockerlog.ParseLog: one resource per container), records of one resource share ONE attribute map
+	shared := map[string]otelstorage.Attrs{}
+	resOf := func(kv [][2]string) otelstorage.Attrs {
+		key := fmt.Sprint(kv)
+		if a, ok := shared[key]; ok {
+			return a
+		}
+		a := toAttrs(kv)
+		shared[key] = a
+		return a
+	}
 recLoop:
 	for _, r := range q.recs {
 		if !q.noWindow && (r.TS < int64(start) || r.TS > int64(end)) {
@@ -137,7 +148,7 @@ recLoop:
 			Timestamp:     otelstorage.Timestamp(r.TS),
 			Body:          body,
 			Attrs:         toAttrs(r.Attrs),
-			ResourceAttrs: toAttrs(r.Res),
+			ResourceAttrs: resOf(r.Res),
 		})
 	}
 	return &mockIter{q: q, recs: out}, nil
